@@ -127,6 +127,11 @@ func c12(ctx *core.Ctx) {
 			rd.Mutators = r.Range(2, 8)
 			rd.Readers = r.Range(2, 12)
 			rd.OpsPer = r.Range(20, 60)
+			if r.Chance(1, 10) {
+				rd.Mutators, rd.OpsPer = []int{12, 20}[r.Intn(2)], 15 // many writers, fewer steps each
+			}
+		} else if ri%8 == 5 || ri%8 == 6 {
+			rd.Mutators, rd.OpsPer = 12, 15
 		}
 		ctx.Case(ri, core.JSON(rd))
 		c := restful.NewContainer()
